@@ -382,9 +382,41 @@ class Engine:
             raise OutOfSubset("symbolic divisor under a quantifier")
         return q, r
 
+    def np_dtype_of(self, e, st):
+        """interpreted code only: the integer dtype an expression carries as a numpy scalar (None: a Python number)"""
+        if isinstance(e, ast.Subscript):
+            try:
+                base = self.ev(e.value, st, True, {})
+            except (OutOfSubset, ContractError):
+                return None
+            if isinstance(base, SArr) and base.dt is not None:
+                return base.dt
+            if isinstance(base, SView) and isinstance(st.vars.get(base.base), SArr):
+                return st.vars[base.base].dt
+            return None
+        if isinstance(e, ast.Name):
+            return self.__dict__.get("_np_vars", {}).get(e.id)
+        if isinstance(e, ast.UnaryOp):
+            return self.np_dtype_of(e.operand, st)
+        if isinstance(e, ast.BinOp) and isinstance(e.op, (ast.Add, ast.Sub, ast.Mult, ast.FloorDiv, ast.Mod)):
+            l, r = self.np_dtype_of(e.left, st), self.np_dtype_of(e.right, st)
+            small = lambda x: isinstance(x, ast.Constant) and isinstance(x.value, int) and abs(x.value) <= 127   # noqa: E731
+            if l is not None and (r is not None or small(e.right)):
+                return l
+            if r is not None and small(e.left):
+                return r
+        return None
+
     def ev_BinOp(self, e, st, spec, ctx):
         a0 = self.ev(e.left, st, spec, ctx)
         b0 = self.ev(e.right, st, spec, ctx)
+        if not spec and self.c.npscalars and isinstance(e.op, (ast.Add, ast.Sub, ast.Mult)):
+            dt = self.np_dtype_of(e, st)
+            if dt is not None and is_num(a0) and is_num(b0):
+                r_ = {ast.Add: lambda: a0 + b0, ast.Sub: lambda: a0 - b0, ast.Mult: lambda: a0 * b0}[type(e.op)]()
+                # numpy scalar arithmetic keeps the (narrow) dtype of the array and wraps silently
+                self.emit("range", f"numpy-scalar:{unparse(e)}@{self.stmt_label()}", z3.And(dt[0] <= r_, r_ <= dt[1]),
+                          st.guard, self.c.arith_props)
         if isinstance(a0, (SArr, SSlice, SView, SVec)) or isinstance(b0, (SArr, SSlice, SView, SVec)):
             # element-wise arithmetic on whole arrays / slices (numba checks the shapes): an unknown vector
             return SVec()
@@ -1323,6 +1355,13 @@ class Engine:
         val = self.ev_code(value, st)
         self.flush_guarded(st, s)
         self.bind(tgt, val, st, s)
+        if self.c.npscalars and isinstance(tgt, ast.Name):
+            npv = self.__dict__.setdefault("_np_vars", {})
+            dt_ = self.np_dtype_of(value, st)
+            if dt_ is not None:
+                npv[tgt.id] = dt_
+            else:
+                npv.pop(tgt.id, None)
         if isinstance(tgt, ast.Name) and isinstance(value, ast.Attribute) and isinstance(val, SArr) \
                 and unparse(value) in self.c.fields and self.assigned_once(tgt.id):
             self.field_alias[unparse(value)] = tgt.id
@@ -1662,7 +1701,18 @@ class Engine:
                 cvar = lp.index or f"_k{ordn.replace('.', '_')}"
             seq = self.ev_code(seqe, st)
             self.flush_guarded(st, s)
-            if isinstance(seq, SArr) and seq.ndim == 1:
+            if isinstance(seq, SSlice) and isinstance(st.vars.get(seq.base), SArr) and st.vars[seq.base].ndim == 1:
+                # iterating a[lo:hi]: Python clamps the (non-negative) bounds to the length of the array
+                arr_ = st.vars[seq.base]
+                n_ = arr_.shape[0]
+                clamp = lambda v: z3.If(v < 0, z3.IntVal(0), z3.If(v > n_, n_, v))     # noqa: E731
+                if z3.is_int_value(z3.simplify(seq.lo)) and z3.simplify(seq.lo).as_long() < 0:
+                    raise OutOfSubset("iteration over a slice with a negative bound")
+                lo = clamp(seq.lo)
+                hi_raw = clamp(seq.hi)
+                seq, seq_name = arr_, seq.base
+                hi = z3.If(hi_raw >= lo, hi_raw, lo)
+            elif isinstance(seq, SArr) and seq.ndim == 1:
                 hi = seq.shape[0]
                 seq_name = seqe.id if isinstance(seqe, ast.Name) else None
             elif isinstance(seq, SView):
